@@ -112,7 +112,8 @@ class SimPopen:
         if not known:
             sim.counts['unknown_tag'] += 1
         self._b = b
-        eff_cwd = os.fspath(cwd) if cwd is not None else _getcwd()
+        # like the OS: a relative cwd is relative to the current directory of the (Exactly) process at that moment
+        eff_cwd = os.path.normpath(os.path.join(_getcwd(), os.fspath(cwd))) if cwd is not None else _getcwd()
         eff_env = dict(env) if env is not None else dict(os.environ)
         # a child that is given no stdin inherits that of the Exactly process: the text waiting there is part of the
         # simulated world (plan['exactly_stdin']), never the real stdin of the harness
